@@ -131,7 +131,28 @@ pub fn judge_sum(kind: usize, seq: &[[f64; 2]]) -> Verdict {
     }
 }
 
+pub fn hist_judge(c: &crate::hist::HCall, l: Option<&mut Local>) -> Verdict {
+    use crate::api::Op;
+    let k = match c.as_op() {
+        Some(Op::add) => 0,
+        Some(Op::sub) => 1,
+        Some(Op::add_assign) => 2,
+        Some(Op::sub_assign) => 3,
+        Some(Op::add_f) => 4,
+        Some(Op::sub_f) => 5,
+        Some(Op::add_assign_f) => 6,
+        Some(Op::sub_assign_f) => 7,
+        Some(Op::f_add) => 8,
+        Some(Op::f_sub) => 9,
+        _ => return Verdict::Skip,
+    };
+    judge(k, c.a, c.b, l)
+}
+
 pub fn replay(call: &str, _clause: &str, args: &[u64]) -> Verdict {
+    if call == "hist" {
+        return crate::hist::replay(args, &hist_judge);
+    }
     let ci = CALLS.iter().position(|c| *c == call).expect("unknown call");
     if ci == 10 || ci == 11 {
         let seq: Vec<[f64; 2]> = args.chunks(2).map(|c| [f64::from_bits(c[0]), f64::from_bits(c[1])]).collect();
@@ -377,5 +398,12 @@ pub fn run(r: &mut Runner) {
                 }
             }
         });
+    }
+    {
+        use crate::api::Op;
+        let pairs = [([1.5, 1e-17], [1.25, -3e-18]), ([1.0, 2f64.powi(-54)], [-1.0, 2f64.powi(-55)]), ([3.0, 0.0], [1e-30, 1e-47]), ([2f64.powi(100), 1.0], [1.0, 2f64.powi(-60)])];
+        let mut groups = crate::hist::binary_groups(&[Op::sub, Op::add], &pairs);
+        groups.extend(crate::hist::binary_groups(&[Op::sub_assign, Op::add_assign, Op::sub_f], &pairs[..2]));
+        crate::hist::explore(r, "histories: + and - (operand orders, signs, assign forms)", &groups, 3, &hist_judge, 14u64 << 55);
     }
 }
